@@ -80,6 +80,7 @@ def strategy(tier: str):
             "debug_log": st.sampled_from((False, False, True)),
             "ctx": st.sampled_from(("same", "same", "copied", "thread")),
             "bystander_config": st.sampled_from((False, False, False, True)),
+            "bad_dumps": st.one_of(st.just([]), st.just([]), st.lists(st.integers(0, 7), min_size=1, max_size=3)),
         }
     )
 
@@ -118,6 +119,10 @@ def enumerate_cases(tier: str):
                 yield {"version": version, "msg": msg[:5] + [text], "ending": "\n", "warmup": []}
             for ctx in env.CTX_MODES:
                 yield {"version": version, "msg": msg, "ending": "\n", "warmup": [], "ctx": ctx}
+            # the long-lived schema was asked to encode something that is not a complete message just before (refused part-way)
+            for shape in range(8):
+                yield {"version": version, "msg": msg, "ending": "\n", "warmup": [], "bad_dumps": [shape]}
+            yield {"version": version, "msg": msg, "ending": "\n", "warmup": [], "bad_dumps": [3, 1, 5]}
         # every payload of the enumerated sets (and version-looking text) under every command and type: no type has a private payload rule
         if tier == "thorough" or version in ("1.4", "2.2"):
             for command, child, types in ((3, 255, range(0, 36)), (0, 255, (17, 18)), (0, 1, range(0, 8)), (1, 1, range(0, 12)), (2, 1, range(0, 6)), (4, 255, range(0, 6))):
@@ -190,6 +195,18 @@ def _differently_configured_bystanders() -> int:
     return built
 
 
+def _incomplete_message(shape: int, fields: list):
+    """Objects an application may hand to the encoder by mistake: the first `shape` attributes of a message (0-5), None (6), a str (7)."""
+    import types
+
+    if shape == 6:
+        return None
+    if shape == 7:
+        return "7;255;3;0;9;text"
+    names = ("node_id", "child_id", "command", "ack", "message_type", "payload")
+    return types.SimpleNamespace(**dict(zip(names[:shape], fields[:shape])))
+
+
 def _nontrivial(msg: list) -> bool:
     node, child, command, _ack, mtype, payload = msg
     return (
@@ -246,6 +263,14 @@ def _run_case(case: dict) -> Outcome:
         except Exception:  # noqa: BLE001
             pass
     expected_line = ref_format(node, child, command, ack, mtype, payload)
+    for shape in case.get("bad_dumps", ()):
+        # an encode that is refused (an object lacking some of the six attributes, or not a message at all) leaves nothing behind
+        try:
+            schema.dump(_incomplete_message(shape, [7, 255, 3, 0, 9, "left;over"]))
+        except Exception:  # noqa: BLE001 - how the refusal is reported is not this property's business
+            pass
+    if case.get("bad_dumps"):
+        classes += ("after-refused-dump",)
     for other in case.get("pre_dumps", ()):
         # the schema has encoded other messages before (it lives as long as the gateway does)
         try:
